@@ -435,6 +435,31 @@ def rule_builders(chk, cls):
                        detail_bad='%s is appended to for every particle array but never emptied between arrays: the second '
                                   'array\'s images use the first array\'s entries' % name,
                        detail_ok='reset before the first append of each pass')
+        # every particle array of the list gets its images: nothing inside the per-array loop ends the whole pass (an early-out for an array without candidates is `continue`)
+        leaves = [x for x in ast.walk(loop) if isinstance(x, ast.Return) or (isinstance(x, ast.Break) and M.enclosing(x, (ast.For, ast.While)) is loop)]
+        chk.decide(not leaves, 'ghost-passes-complete:' + kind, 'every-array-processed', node=leaves[0] if leaves else loop, file=NB, func=fname,
+                   detail_bad='line %s leaves the loop over the particle arrays (%s): the arrays listed after this one get no images at all' % (
+                       getattr(leaves[0], 'lineno', '?') if leaves else '?', type(leaves[0]).__name__.lower() if leaves else ''),
+                   detail_ok='no return / break inside the loop over the arrays')
+        # the faces are marked independently: a particle within the layer of two faces (both faces of a thin box, an edge, a corner) is on both lists - for every two index lists
+        # of the marking loop there is a path through its body that appends to both
+        from verif_static import paths as PT
+        marks = [l2 for l2 in ast.walk(loop) if isinstance(l2, ast.For) and l2 is not loop and
+                 len(set(M.call_name(c)[:-7] for c in M.calls(l2) if (M.call_name(c) or '').endswith('.append') and M.call_name(c)[:-7] in b.lists)) >= 6]
+        if len(marks) != 1:
+            raise AnalysisError('%s: marking loop not found' % fname)
+        together = set()
+        names_m = set()
+        for p_ in PT.enumerate_paths(list(marks[0].body)):
+            ap = sorted(set(cal[:-7] for i_, c_, cal, env_ in PT.calls_on(p_) if cal.endswith('.append') and cal[:-7] in b.lists))
+            names_m |= set(ap)
+            for a1 in ap:
+                for a2 in ap:
+                    together.add((a1, a2))
+        apart = sorted((a1, a2) for a1 in names_m for a2 in names_m if a1 < a2 and (a1, a2) not in together)
+        chk.decide(not apart, 'ghost-passes-complete:' + kind, 'faces-marked-independently', node=marks[0], file=NB, func=fname,
+                   detail_bad='no path through the marking loop puts a particle on both %s and %s (one test is the `else` of the other): a particle within the layer of both faces - '
+                              'a box thinner than two layers, an edge - gets only one of its images' % (apart[0] if apart else ('', '')), detail_ok='%d lists, every pair can be appended to for one particle' % len(names_m))
         # tagging and hand-over
         gl = C.build_cfg(loop.body)
         appends = [n for n in gl.nodes if n.ast is not None and isinstance(n.ast, ast.Expr) and
